@@ -723,7 +723,7 @@ func finish(p *Property, o Options, agg *Agg, t0 time.Time) int {
 	conclusive := counts[Held] + counts[Violated] + counts["known-finding"]
 
 	// replay files + VIOLATION lines
-	os.MkdirAll(filepath.Join(VerifDir(), "replays"), 0o755)
+	os.MkdirAll(filepath.Join(OutDir(), "replays"), 0o755)
 	sort.Strings(keys)
 	for i, k := range keys {
 		vs := violByKey[k]
@@ -733,7 +733,7 @@ func finish(p *Property, o Options, agg *Agg, t0 time.Time) int {
 			"complaint": v.r.Detail, "events": v.r.Events, "same_key_cases": len(vs),
 		}
 		b, _ := json.MarshalIndent(rp, "", " ")
-		path := filepath.Join(VerifDir(), "replays", fmt.Sprintf("%s-%s.json", p.ID, HashOf([]interface{}{k, v.id, o.Seed})))
+		path := filepath.Join(OutDir(), "replays", fmt.Sprintf("%s-%s.json", p.ID, HashOf([]interface{}{k, v.id, o.Seed})))
 		os.WriteFile(path, b, 0o644)
 		if i < 25 {
 			d := v.r.Detail
@@ -792,9 +792,9 @@ func finish(p *Property, o Options, agg *Agg, t0 time.Time) int {
 		"assumptions": p.Assumptions, "wall_s": time.Since(t0).Seconds(), "violations": counts[Violated],
 	}
 	if o.Only == "" {
-		os.MkdirAll(filepath.Join(VerifDir(), "evidence"), 0o755)
+		os.MkdirAll(filepath.Join(OutDir(), "evidence"), 0o755)
 		b, _ := json.MarshalIndent(ev, "", " ")
-		os.WriteFile(filepath.Join(VerifDir(), "evidence", p.ID+".json"), b, 0o644)
+		os.WriteFile(filepath.Join(OutDir(), "evidence", p.ID+".json"), b, 0o644)
 	}
 	fmt.Printf("%s tier=%s seed=%d: cases=%d held=%d violated=%d known=%d inconclusive=%d distinct_nontrivial=%d wall=%.1fs\n",
 		p.ID, o.Tier, o.Seed, len(agg.Results), counts[Held], counts[Violated], counts["known-finding"], counts[Inconclusive],
